@@ -251,6 +251,11 @@ class Indentation(afmformats.AFMForceDistance):
                                  self.preprocessing_options)
             self.apply_preprocessing(preprocessing=preprocessing,
                                      options=options)
+        # Set the default model first: assigning `model_key` after the
+        # keyword arguments would reset `params_initial` given by the user.
+        if ("model_key" not in kwargs
+                and "model_key" not in self.fit_properties):
+            self.fit_properties["model_key"] = FP_DEFAULT["model_key"]
         # self.fit_properties is an instance of FitProperties that
         # stores previous fit kwargs. If the given kwargs are
         # different than in the previous fit, the following two
